@@ -146,6 +146,7 @@ struct SeqEngine : Engine
     {
         if (p.prop != "C07") return false;
         if (p.knob("bern_permille", 0) != 0) return false;
+        if (p.knob("alloc_default", 0) != 0) return false; // the real default allocator may have refused a request: that is an allocation failure too
         for (auto const &o : p.ops) if (o.fk) return false;
         return true; // a fault-free history that fails is C04-C06's finding
     }
